@@ -28,6 +28,7 @@ import vlib
 from c2lean import Untranslatable
 
 PORT = "src/port/x86-64/linux"
+TRIAL_INIT = ("cmb_event_queue_initialize", "cmb_random_initialize", "worker_thread_func")
 
 
 # --------------------------------------------------------------------------
@@ -260,7 +261,7 @@ def _extract_tu(rel, root):
         p = stack[i - 1]
         k = p.get("kind")
         if k == "ImplicitCastExpr" and p.get("castKind") == "LValueToRValue":
-            return ("read", "")
+            return ("read", field or "")
         if k == "BinaryOperator" and p.get("opcode") == "=" and p["inner"][0] is top:
             return ("write", field or "")
         if k == "CompoundAssignOperator" and p["inner"][0] is top:
@@ -320,13 +321,27 @@ def _extract_tu(rel, root):
         acc = []
         walk_body(body[0], fn, [], acc)
         top = []
-        for s in top_statements(body[0]):
+        stmts = top_statements(body[0])
+        for si, s in enumerate(stmts):
+            st = {"assign": None, "call": None, "reads": [], "calls": [], "returns": False}
             if s.get("kind") == "BinaryOperator" and s.get("opcode") == "=":
                 r, field = lvalue_root(s["inner"][0])
                 if r is not None:
-                    top.append(("assign", tracked[r["referencedDecl"]["id"]], field))
+                    st["assign"] = (tracked[r["referencedDecl"]["id"]], field)
             elif s.get("kind") == "CallExpr":
-                top.append(("call", callee_name(s)))
+                st["call"] = callee_name(s)
+            # everything the statement reads (in any nested position), every function it calls, and whether it can return
+            sacc = []
+            walk_body(s, fn, [], sacc)
+            for kk, c in sacc:
+                if c[0] in ("read", "rmw", "addrTo"):
+                    st["reads"].append((kk, c[1] if c[0] == "read" else ""))
+            calls, rets = [], []
+            _find_all(s, lambda x: x.get("kind") == "CallExpr", calls)
+            st["calls"] = [callee_name(c) for c in calls]
+            _find_all(s, lambda x: x.get("kind") in ("ReturnStmt", "GotoStmt"), rets)
+            st["returns"] = bool(rets) and si + 1 < len(stmts)
+            top.append(st)
         funcs[fn] = {"static": n.get("storageClass") == "static", "top": top, "accesses": acc,
                      "file": _relfile(n["_file"], impl_dir)}
     # keys are tuples: make them JSON/pickle friendly
@@ -370,11 +385,10 @@ def collect(impl):
                     raise Untranslatable("access to %s which has no definition in the library sources" % k[2]) \
                         if False else None
 
-    # must-assign sets
-    memo = {}
+    # must-assign sets and reads-before-writes
+    memo, memo_r = {}, {}
 
-    def must_assign(rel, fn, depth=0):
-        """dict key -> set(fields) ('' = whole variable) assigned unconditionally by fn."""
+    def lookup(rel, fn):
         f = per_tu[rel]["funcs"].get(fn) if rel else None
         if f is None:
             f = glob.get(fn)
@@ -384,6 +398,12 @@ def collect(impl):
                     if data["funcs"].get(fn) is f:
                         rel2 = r
             rel = rel2
+        return rel, f
+
+    def must_assign(rel, fn, depth=0):
+        """dict key -> set(fields) ('' = whole variable) assigned on EVERY path through fn: plain top-level `=` statements and
+        top-level calls, up to the first statement that can leave the function early."""
+        rel, f = lookup(rel, fn)
         if f is None or depth > 6:
             return {}
         mk = (rel, fn)
@@ -392,15 +412,53 @@ def collect(impl):
         memo[mk] = {}
         out = {}
         for t in f["top"]:
-            if t[0] == "assign":
-                out.setdefault(t[1], set()).add(t[2] or "")
-            else:
-                for k, fs in must_assign(rel, t[1], depth + 1).items():
+            if t["returns"]:
+                break
+            if t["assign"]:
+                out.setdefault(t["assign"][0], set()).add(t["assign"][1] or "")
+            elif t["call"]:
+                for k, fs in must_assign(rel, t["call"], depth + 1).items():
                     out.setdefault(k, set()).update(fs)
         memo[mk] = out
         return out
 
+    def covered(k, field, assigned):
+        fs = assigned.get(k, set())
+        fields = defs[k]["fields"] if k in defs else []
+        return "" in fs or (field and field in fs) or (bool(fields) and set(fields) <= fs)
+
+    def exposed_reads(rel, fn, depth=0):
+        """variables fn may read before it has assigned them (statement order; reads in nested positions and in callees count;
+        only unconditional top-level assignments protect later reads)"""
+        rel, f = lookup(rel, fn)
+        if f is None or depth > 6:
+            return set()
+        mk = (rel, fn)
+        if mk in memo_r:
+            return memo_r[mk]
+        memo_r[mk] = set()
+        out, assigned, uncond = set(), {}, True
+        for t in f["top"]:
+            for k, field in t["reads"]:
+                if not covered(k, field, assigned):
+                    out.add(k)
+            for cn in t["calls"]:
+                for k in exposed_reads(rel, cn, depth + 1):
+                    if not covered(k, None, assigned):
+                        out.add(k)
+            if uncond:
+                if t["assign"]:
+                    assigned.setdefault(t["assign"][0], set()).add(t["assign"][1] or "")
+                elif t["call"]:
+                    for k, fs in must_assign(rel, t["call"], depth + 1).items():
+                        assigned.setdefault(k, set()).update(fs)
+            if t["returns"]:
+                uncond = False
+        memo_r[mk] = out
+        return out
+
     reset_by = {k: set() for k in defs}
+    read_first = {k: set() for k in defs}
     for rel, data in per_tu.items():
         for fn in data["funcs"]:
             for k, fs in must_assign(rel, fn).items():
@@ -409,6 +467,13 @@ def collect(impl):
                 fields = defs[k]["fields"]
                 if "" in fs or (fields and set(fields) <= fs):
                     reset_by[k].add(fn)
+            for k in exposed_reads(rel, fn):
+                if k in defs:
+                    read_first[k].add(fn)
+    # emitted: only the functions that matter for the classification (the variable's own resetters and the per-trial
+    # initialisation entry points); the full sets run to hundreds of names through the assert -> logger path
+    for k in defs:
+        defs[k]["read_first"] = {f for f in read_first[k] if f in reset_by[k] or f in TRIAL_INIT}
     return defs, accesses, reset_by, per_tu
 
 
@@ -726,10 +791,11 @@ def generate(impl):
                 return "⟨%s, .%s %s⟩" % (lstr(fn), kind, lstr(extra))
             return "⟨%s, .%s⟩" % (lstr(fn), kind)
         out.append("def inv%d : Entry :=\n  { file := %s, function := %s, name := %s, isThreadLocal := %s, isConst := %s,\n"
-                   "    type := %s,\n    accesses := [%s],\n    resetBy := [%s] }" % (
+                   "    type := %s,\n    accesses := [%s],\n    resetBy := [%s],\n    readFirstBy := [%s] }" % (
                        i, lstr(d["file"]), lstr(d["function"]), lstr(d["name"]), "true" if d["tls"] else "false",
                        "true" if d["const"] else "false", lstr(d["type"]), ", ".join(ak(a) for a in acc),
-                       ", ".join(lstr(f) for f in sorted(reset_by[k]))))
+                       ", ".join(lstr(f) for f in sorted(reset_by[k])),
+                       ", ".join(lstr(f) for f in sorted(d["read_first"]))))
         names.append("inv%d" % i)
     out.append("")
     out.append("/-- every variable with static storage duration defined in the library's sources -/")
@@ -770,7 +836,7 @@ def generate(impl):
             "fetch_mode": disp["mode"],
             "inventory_hash": hashlib.sha256(inv_text.encode()).hexdigest()[:16]}
     table = [{"file": defs[k]["file"], "function": defs[k]["function"], "name": defs[k]["name"], "tls": defs[k]["tls"],
-              "const": defs[k]["const"], "resetBy": sorted(reset_by[k]),
+              "const": defs[k]["const"], "resetBy": sorted(reset_by[k]), "readFirstBy": sorted(defs[k]["read_first"]),
               "accesses": sorted(accesses[k])} for k in keys]
     return (inv_text, disp_text), info, table
 
